@@ -49,6 +49,7 @@ type RouteProfile struct {
 	Cleanup     bool // judge the C08 end-of-run cleanup
 	CheckC05    bool // in-system ack translation oracle (no-failure profiles)
 	BadMetadata bool // C20 in routing mode: hostile stream-open metadata next to the regular streams
+	BiasFaults  bool // place stream faults preferably where in-flight state exists (tasks delivered to a live target stream and not yet confirmed)
 }
 
 // RouteConfig is the per-run configuration, drawn from the tape first.
@@ -64,6 +65,7 @@ type RouteConfig struct {
 	PKeep       int
 	ChaosBudget int
 	FaultBudget int
+	FaultAt     []int // decision from which the k-th fault may fire (faults spread over the run instead of all landing at its start)
 	NoAck       map[string]bool
 	LateOpen    map[string]int
 }
@@ -140,6 +142,7 @@ type shardModel struct {
 	ackLevel int64
 	src      *srcConn
 	srcIncs  int
+	prevHigh int64          // largest exclusive high the proxy read on earlier incarnations of this shard's source stream
 	wmHighs  map[int64]bool // every exclusive high this shard ever sent as source (any message kind)
 	// target role
 	tgt     *tgtConn
@@ -174,13 +177,14 @@ type RouteWorld struct {
 	phase  int              // 0 chaos, 1 tail, 2 close
 	nextSt int
 
-	confirmed  map[taskKey]bool
-	deliveries map[taskKey][]delivery
-	delivOrder int
-	toProxy    map[taskKey]bool // source task read by the proxy (any incarnation)
-	readAt     map[taskKey]int  // decision at which the proxy last read the task
-	readInc    map[taskKey]int  // source stream incarnation over which the proxy last read it
-	readCount  map[taskKey]int  // number of distinct source incarnations over which the proxy read it
+	confirmed        map[taskKey]bool
+	deliveries       map[taskKey][]delivery
+	delivOrder       int
+	toProxy          map[taskKey]bool // source task read by the proxy (any incarnation)
+	readAt           map[taskKey]int  // decision at which the proxy last read the task
+	readInc          map[taskKey]int  // source stream incarnation over which the proxy last read it
+	readCount        map[taskKey]int  // number of distinct source incarnations over which the proxy read it
+	ackedUnconfirmed map[taskKey]bool // tasks already reported as acknowledged without confirmation
 
 	faultsLeft int
 	faults     map[string]int
@@ -227,6 +231,22 @@ func drawRouteConfig(s *simrt.Sim, prof RouteProfile) RouteConfig {
 	c.ChaosBudget = []int{1500, 600, 3000, 6000}[s.Draw(4)]
 	if prof.Faults {
 		c.FaultBudget = s.Draw(4)
+		if prof.BiasFaults {
+			c.FaultBudget = 1 + s.Draw(3)
+		}
+		if prof.Churn {
+			// churn profile: every fault is one more overlap of a successor with its predecessor's teardown
+			c.FaultBudget = 1 + s.Draw(6)
+		}
+		spread := prof.BiasFaults || s.Draw(2) == 1
+		for i := 0; i < c.FaultBudget; i++ {
+			at := 0
+			if spread {
+				at = s.Draw(c.ChaosBudget)
+			}
+			c.FaultAt = append(c.FaultAt, at)
+		}
+		sort.Ints(c.FaultAt)
 	}
 	c.NoAck = map[string]bool{}
 	c.LateOpen = map[string]int{}
@@ -268,7 +288,7 @@ func (w *RouteWorld) shard(id ShardID) *shardModel {
 // routing mode (cluster_connection.go: getRoutingParameters).
 func NewRouteWorld(s *simrt.Sim, prof RouteProfile) *RouteWorld {
 	w := &RouteWorld{s: s, prof: prof, confirmed: map[taskKey]bool{}, deliveries: map[taskKey][]delivery{},
-		toProxy: map[taskKey]bool{}, readAt: map[taskKey]int{}, readInc: map[taskKey]int{}, readCount: map[taskKey]int{}, faults: map[string]int{}}
+		toProxy: map[taskKey]bool{}, readAt: map[taskKey]int{}, readInc: map[taskKey]int{}, readCount: map[taskKey]int{}, faults: map[string]int{}, ackedUnconfirmed: map[taskKey]bool{}}
 	w.cfg = drawRouteConfig(s, prof)
 	s.SetPKeep(w.cfg.PKeep)
 	w.faultsLeft = w.cfg.FaultBudget
@@ -366,6 +386,9 @@ func (w *RouteWorld) openSource(cl int32, ctx context.Context) (adminservice.Adm
 	sh.srcIncs++
 	st := simio.NewStream(fmt.Sprintf("src-%s#%d", sh.name(), sh.srcIncs), w.nextSt, ctx, w.cfg.Window)
 	c := &srcConn{sh: sh, st: st, inc: sh.srcIncs, next: sh.ackLevel}
+	if old := sh.src; old != nil && old.highDelivered > sh.prevHigh {
+		sh.prevHigh = old.highDelivered
+	}
 	if old := sh.src; old != nil && !old.closed {
 		// the cluster keeps one sender per (client, server) shard pair: a new stream replaces the old one
 		old.closed = true
@@ -507,9 +530,12 @@ func (w *RouteWorld) onAckToSource(c *srcConn, r *simio.Req) {
 			break
 		}
 		k := taskKey{c.sh.sid(), t.id}
-		if w.confirmed[k] {
+		if w.confirmed[k] || w.ackedUnconfirmed[k] {
+			// an acknowledged-but-unconfirmed task is one loss, reported once (at the first ack that
+			// covers it); the source resumes above it on later incarnations
 			continue
 		}
+		w.ackedUnconfirmed[k] = true
 		where := "never forwarded to any target stream"
 		if ds := w.deliveries[k]; len(ds) > 0 {
 			var parts []string
@@ -524,7 +550,6 @@ func (w *RouteWorld) onAckToSource(c *srcConn, r *simio.Req) {
 		if w.anyFault {
 			w.violateSig("C04", "ack-of-unconfirmed", w.c04Sig(c, t, k), "source %s acked %d but task %d was never confirmed by any target stream: %s", c.sh.name(), a, t.id, where)
 		}
-		break
 	}
 }
 
@@ -562,12 +587,22 @@ func (w *RouteWorld) c04Sig(c *srcConn, t *srcTask, k taskKey) string {
 					return "resent-behind-stale-entry-after-source-restart"
 				}
 			}
+			// the stale entry may also be a watermark-only entry of the previous incarnation (no task
+			// to see on the stream): an ack on this stream that does not cover any live copy of the
+			// task was translated, for this source, to a value above the task and not above what the
+			// previous incarnations had delivered
+			for _, r := range tc.rounds {
+				if v, ok := r.delivered[k.src]; ok && v > k.id && r.w <= minLive && v <= c.sh.prevHigh {
+					return "resent-behind-stale-entry-after-source-restart"
+				}
+			}
 		}
 	}
 	// (a) in-flight state died with a target stream
 	if w.readInc[k] != c.inc {
 		return ""
 	}
+
 	for _, d := range ds {
 		if d.conn.diedAt == 0 {
 			return "" // still pending on a live target stream: nothing was lost, the ack is simply early
@@ -954,15 +989,21 @@ func (w *RouteWorld) Actions() []simrt.Action {
 			if ackOK && !closing {
 				add("tgt-ack:"+c.st.Name, 5, false, func() { w.tgtAck(c) })
 			}
-			if w.prof.Faults && w.faultsLeft > 0 && w.phase == 0 {
-				add("FAULT tgt-cancel:"+c.st.Name, 1, true, func() { w.fault("tgt-cancel"); c.cancel() })
-				add("FAULT tgt-break:"+c.st.Name, 1, true, func() {
+			if w.prof.Faults && w.faultDue() {
+				fw := 1
+				if w.prof.BiasFaults && w.tgtInFlight(c) {
+					fw = 3
+				}
+				add("FAULT tgt-cancel:"+c.st.Name, fw, true, func() { w.fault("tgt-cancel"); c.cancel() })
+				add("FAULT tgt-break:"+c.st.Name, fw, true, func() {
 					w.fault("tgt-break")
 					c.st.Break(status.Error(codes.Unavailable, "transport is closing"))
 				})
 				add("FAULT tgt-closesend:"+c.st.Name, 1, true, func() { w.fault("tgt-closesend"); c.st.HarnessCloseSend() })
 			}
-			if closing && !c.st.ClientClosedSend {
+			if closing {
+				// also a stream the client has half-closed: a client whose stream is not ended by the
+				// server gives up by cancelling it
 				add("close tgt:"+c.st.Name, 5, false, func() { c.cancel() })
 			}
 		}
@@ -1000,14 +1041,18 @@ func (w *RouteWorld) Actions() []simrt.Action {
 			if sc.st.LenC2S() > 0 {
 				add("src-read-ack:"+sc.st.Name, 6, false, func() { w.srcReadAck(sc) })
 			}
-			if w.prof.Faults && w.faultsLeft > 0 && w.phase == 0 && sc.alive() {
-				add("FAULT src-eof:"+sc.st.Name, 1, true, func() { w.fault("src-eof"); sc.closed = true; sc.st.ServerFinish(nil) })
-				add("FAULT src-error:"+sc.st.Name, 1, true, func() {
+			if w.prof.Faults && w.faultDue() && sc.alive() {
+				fw := 1
+				if w.prof.BiasFaults && w.srcInFlight(sh) {
+					fw = 6
+				}
+				add("FAULT src-eof:"+sc.st.Name, fw, true, func() { w.fault("src-eof"); sc.closed = true; sc.st.ServerFinish(nil) })
+				add("FAULT src-error:"+sc.st.Name, fw, true, func() {
 					w.fault("src-error")
 					sc.closed = true
 					sc.st.ServerFinish(status.Error(codes.Unavailable, "shard closed"))
 				})
-				add("FAULT src-break:"+sc.st.Name, 1, true, func() {
+				add("FAULT src-break:"+sc.st.Name, fw, true, func() {
 					w.fault("src-break")
 					sc.closed = true
 					sc.st.Break(status.Error(codes.Unavailable, "transport is closing"))
@@ -1016,6 +1061,45 @@ func (w *RouteWorld) Actions() []simrt.Action {
 		}
 	}
 	return acts
+}
+
+// srcInFlight: some live target stream holds a task of this source that it has not confirmed yet.
+func (w *RouteWorld) srcInFlight(sh *shardModel) bool {
+	for _, o := range w.shards[other(sh.cluster)] {
+		for _, tc := range o.allTgt {
+			if tc.diedAt != 0 {
+				continue
+			}
+			for _, t := range tc.tracked {
+				if t.key.src == sh.sid() && !w.confirmed[t.key] {
+					return true
+				}
+			}
+		}
+	}
+	return false
+}
+
+// tgtInFlight: the target stream holds a task it has not confirmed, or the proxy has put one on it that it has not received.
+func (w *RouteWorld) tgtInFlight(c *tgtConn) bool {
+	if len(c.sentTasks) > len(c.tracked) {
+		return true
+	}
+	for _, t := range c.tracked {
+		if t.key != (taskKey{}) && !w.confirmed[t.key] {
+			return true
+		}
+	}
+	return false
+}
+
+// faultDue: the next fault of the run's budget may fire now.
+func (w *RouteWorld) faultDue() bool {
+	if w.faultsLeft <= 0 || w.phase != 0 {
+		return false
+	}
+	k := w.cfg.FaultBudget - w.faultsLeft
+	return k >= len(w.cfg.FaultAt) || w.s.Stats.Decisions >= w.cfg.FaultAt[k]
 }
 
 func (w *RouteWorld) fault(kind string) {
